@@ -32,6 +32,7 @@ import (
 	"strconv"
 	"strings"
 	"sync"
+	"sync/atomic"
 	"testing"
 	"time"
 
@@ -64,27 +65,27 @@ type Spec[C any] struct {
 }
 
 type fragment struct {
-	Property    string           `json:"property"`
-	Sub         string           `json:"sub"`
-	Shard       int              `json:"shard"`
-	Seed        uint64           `json:"seed"`
-	RapidSeed   uint64           `json:"rapid_seed"`
-	Tier        string           `json:"tier"`
-	Rule        string           `json:"rule"`
-	Evaluations int              `json:"evaluations"`
-	Nontrivial  int              `json:"nontrivial_evaluations"`
-	Distinct    int              `json:"distinct_nontrivial"`
-	HashFile    string           `json:"hash_file"`
-	HashCapped  bool             `json:"hash_capped"`
-	Labels      map[string]int   `json:"labels"`
-	Excluded    map[string]int   `json:"excluded"`
+	Property    string            `json:"property"`
+	Sub         string            `json:"sub"`
+	Shard       int               `json:"shard"`
+	Seed        uint64            `json:"seed"`
+	RapidSeed   uint64            `json:"rapid_seed"`
+	Tier        string            `json:"tier"`
+	Rule        string            `json:"rule"`
+	Evaluations int               `json:"evaluations"`
+	Nontrivial  int               `json:"nontrivial_evaluations"`
+	Distinct    int               `json:"distinct_nontrivial"`
+	HashFile    string            `json:"hash_file"`
+	HashCapped  bool              `json:"hash_capped"`
+	Labels      map[string]int    `json:"labels"`
+	Excluded    map[string]int    `json:"excluded"`
 	Samples     []json.RawMessage `json:"samples"`
-	Exhaustive  bool             `json:"exhaustive"`
-	WallS       float64          `json:"wall_s"`
-	Requested   int              `json:"requested"`
-	Failed      bool             `json:"failed"`
-	Replay      string           `json:"replay,omitempty"`
-	Message     string           `json:"message,omitempty"`
+	Exhaustive  bool              `json:"exhaustive"`
+	WallS       float64           `json:"wall_s"`
+	Requested   int               `json:"requested"`
+	Failed      bool              `json:"failed"`
+	Replay      string            `json:"replay,omitempty"`
+	Message     string            `json:"message,omitempty"`
 }
 
 const hashCap = 400000
@@ -262,6 +263,9 @@ func (c *counter) flush(start time.Time) {
 	defer c.mu.Unlock()
 	c.frag.WallS = time.Since(start).Seconds()
 	c.frag.Distinct = len(c.hashes)
+	if n := slowCases.Swap(0); n > 0 {
+		Note(c.frag.Property, "slow_cases", n)
+	}
 	exclMu.Lock()
 	for k, v := range excluded {
 		c.frag.Excluded[k] = v
@@ -297,9 +301,25 @@ func Guard(f func() error) (err error) {
 // ErrHang is returned by WithWatchdog when f did not return in time.
 type ErrHang struct{ After time.Duration }
 
-func (e ErrHang) Error() string { return fmt.Sprintf("did not return within %v (non-termination)", e.After) }
+func (e ErrHang) Error() string {
+	return fmt.Sprintf("did not return within %v (non-termination)", e.After)
+}
 
-// WithWatchdog runs f in a goroutine under recover and waits at most d.
+// graceFactor: a case that has not returned after d is given graceFactor*d
+// more before it is called non-terminating. d is already two to three orders
+// of magnitude above an honest case on an idle machine; the grace covers a
+// machine that is busy with other checks (load 30+ on 16 cores was seen to
+// stretch a sleeping pipeline case past 20 s). A case that finishes inside
+// the grace is counted as slow (evidence note "slow_cases"), not as a hang.
+const graceFactor = 12
+
+var slowCases atomic.Int64
+
+// SlowCases reports how many cases needed the grace period.
+func SlowCases() int64 { return slowCases.Load() }
+
+// WithWatchdog runs f in a goroutine under recover and waits at most d (plus
+// the grace period) for it.
 func WithWatchdog(d time.Duration, f func() error) error {
 	done := make(chan error, 1)
 	go func() { done <- Guard(f) }()
@@ -309,7 +329,20 @@ func WithWatchdog(d time.Duration, f func() error) error {
 	case err := <-done:
 		return err
 	case <-tm.C:
-		return ErrHang{d}
+	}
+	grace := graceFactor * d
+	if grace > 4*time.Minute {
+		grace = 4 * time.Minute
+	}
+	tm2 := time.NewTimer(grace)
+	defer tm2.Stop()
+	select {
+	case err := <-done:
+		slowCases.Add(1)
+		fmt.Printf("VERIF-SLOW case needed more than %v (finished within the grace period)\n", d)
+		return err
+	case <-tm2.C:
+		return ErrHang{d + grace}
 	}
 }
 
